@@ -6,7 +6,7 @@
 (***************************************************************************)
 EXTENDS Helpers, Json
 
-CONSTANTS Family,     \* "index" | "dims" | "rows2" | "rows1" | "kr"
+CONSTANTS Family,     \* "index" | "dims" | "rows2" | "rows1" | "kr" | "long"
           ShapeC,     \* shape for the "index" family
           MaxN        \* largest tensor order for "dims"
 
@@ -47,6 +47,14 @@ RowStimuli(width, vals) ==
   UNION {{St(op, [A |-> A, B |-> B, width |-> width]) : op \in {"ismember", "intersect", "setdiff", "union"}} :
          A \in RowMats(width, vals, 3), B \in RowMats(width, vals, 3)}
 
+\* long searches (more rows than any block size a vectorised implementation may choose): a periodic pattern of six
+\* distinct rows looked up in a short source
+LongRows(n) == [k \in 1..n |-> <<k % 3, (k \div 7) % 2>>]
+LongStimuli ==
+  {St("ismember", [A |-> LongRows(n), B |-> B, width |-> 2]) :
+     n \in {1030, 2500}, B \in {<<<<0, 1>>, <<2, 0>>, <<1, 1>>>>, <<<<2, 1>>>>, <<<<5, 5>>, <<0, 0>>>>}}
+  \cup {St("ismember", [A |-> <<<<0, 1>>, <<2, 0>>, <<1, 1>>>>, B |-> LongRows(n), width |-> 2]) : n \in {1030}}
+
 \* Khatri-Rao: labelled matrices; matrix k has entries p_k^i (i = row), column 2 scaled by 7,
 \* so every product identifies the tuple of row indices and the column
 Prime(k) == CASE k = 1 -> 2 [] k = 2 -> 3 [] k = 3 -> 5
@@ -63,6 +71,7 @@ Stimuli == CASE Family = "index" -> IndexStimuli
              [] Family = "rows2" -> RowStimuli(2, {0, 1})
              [] Family = "rows1" -> RowStimuli(1, {0, 1, 2})
              [] Family = "kr"    -> KrStimuli
+             [] Family = "long"  -> LongStimuli
 
 Init == /\ stim \in Stimuli
         /\ last = [st |-> "init"]
